@@ -7,8 +7,10 @@ gzip.GzipFile), os.remove/os.unlink, os.rename/os.replace, os.mkdir (only when t
 arrives here), shutil.move/copy/copyfile/copy2/rmtree.  shutil.copyfileobj between two open handles is no mutation of its own.
 
 Environment (wrapper only; nothing in the repository is touched; active only under ABLAB_ISOQUANT_VERIF=1):
-  C07_TRACE        path of the shared trace: one JSON object per line {n, pid, main, op, mode, path, dst}
-                   (written under an exclusive flock, so the line order is the global order of the mutations)
+  C07_TRACE        path of the shared trace: one JSON object per line {n, pid, main, op, mode, path, dst, open}
+                   (written under an exclusive flock, so the line order is the global order of the mutations);
+                   `open` = the paths this process has opened for writing and not closed yet (weak references to the file
+                   objects, nothing is wrapped): exactly the files that lose buffered data if the run dies here
   C07_CRASH_AT     k > 0: kill the whole process group (SIGKILL: no handler, no flush, no destructor runs) at the k-th mutation
   C07_CRASH_WHEN   'before' (default): before the k-th mutation is executed;  'after': immediately after it returned
                    (files that are still open lose their unflushed buffers in both cases)
@@ -16,7 +18,7 @@ Environment (wrapper only; nothing in the repository is touched; active only und
                    unspecified): 'sorted' (default), 'reverse', 'fs' (whatever the file system says), or 'locks_last'
                    (names ending in _lock/_collected/_processed after all others - the least favourable order)
 The wrapper makes itself a session leader so that the kill reaches the pool workers and nothing else."""
-import os, sys, json, runpy, builtins, fcntl, signal, shutil
+import os, sys, json, runpy, builtins, fcntl, signal, shutil, weakref
 
 REPO = os.environ.get("VERIF_REPO", "/repo")
 if os.environ.get("ABLAB_ISOQUANT_VERIF") != "1":
@@ -29,6 +31,7 @@ MAIN_PID = os.getpid()
 
 _open, _remove, _unlink, _rename, _replace, _mkdir = builtins.open, os.remove, os.unlink, os.rename, os.replace, os.mkdir
 _move, _copy, _copy2, _copyfile, _rmtree = shutil.move, shutil.copy, shutil.copy2, shutil.copyfile, shutil.rmtree
+_handles = []           # (weakref to file object, path, pid that opened it)
 _busy = [False]          # re-entrancy guard: shutil.move -> os.rename etc. count once
 
 
@@ -54,12 +57,23 @@ def _tick(op, path, mode="", dst=""):
             os.lseek(cfd, 0, 0); os.write(cfd, b"%-31d" % n)
         finally:
             os.close(cfd)
-        rec = dict(n=n, pid=os.getpid(), main=os.getpid() == MAIN_PID, op=op, mode=mode, path=path)
+        rec = dict(n=n, pid=os.getpid(), main=os.getpid() == MAIN_PID, op=op, mode=mode, path=path, open=_open_now())
         if dst: rec["dst"] = os.path.abspath(os.fspath(dst))
         os.write(fd, (json.dumps(rec) + "\n").encode())
     finally:
         os.close(fd)             # releases the flock
     return n
+
+
+def _open_now():
+    me = os.getpid(); out = []; keep = []
+    for ref, path, pid in _handles:
+        f = ref()
+        if f is None or pid != me: continue
+        if f.closed: continue
+        keep.append((ref, path, pid)); out.append(path)
+    _handles[:] = keep
+    return out
 
 
 def _after(n):
@@ -89,6 +103,8 @@ def v_open(file, mode="r", *a, **k):
     try:
         n = _tick("open", file, mode="w" if "w" in mode else "a" if "a" in mode else "x" if "x" in mode else "+")
         r = _open(file, mode, *a, **k)
+        try: _handles.append((weakref.ref(r), os.path.abspath(os.fspath(file)), os.getpid()))
+        except TypeError: pass
     finally:
         _busy[0] = False
     _after(n)
